@@ -57,7 +57,7 @@ pub(crate) fn return_type(lhs: Type) -> Type {
 pub(crate) fn create(lhs: InstructionWithStr) -> Result<Instruction, Error> {
     let op = UnaryOperator::Iter;
     let lhs_type = lhs.return_type();
-    if !lhs_type.matches(&var_type!([any])) {
+    if !lhs_type.matches(&var_type!([any])) || lhs_type.element_type().is_none() {
         return Err(Error::IncorectUnaryOperatorOperand {
             ins: lhs.str,
             op,
